@@ -3,7 +3,7 @@
 usage: benigntest.py <dir with patch.diff> <worktree> <id> <prop> [props..]"""
 import json, os, shutil, subprocess, sys, time
 V = os.path.dirname(os.path.dirname(os.path.abspath(__file__)))
-ENV = dict(os.environ, CARGO_NET_OFFLINE="true")
+ENV = dict(os.environ, CARGO_NET_OFFLINE="true", VERIF_EVIDENCE_DIR="/tmp/verif-dev-evidence")
 def sh(cmd, cwd, timeout=7200, env=None):
     p = subprocess.run(cmd, cwd=cwd, shell=True, capture_output=True, text=True, timeout=timeout, env=env or ENV)
     return p.returncode, p.stdout + p.stderr
